@@ -29,6 +29,8 @@ import (
 // of every node kind, SearchOptions, SearchResult, RepoList, ListOptions — both for
 // the in-memory protobuf message and after proto.Marshal / proto.Unmarshal (what a
 // peer actually receives). Part 2 (gRPC totality) is in c24_grpc_test.go.
+var c24NilDir = regexp.MustCompile(`(nil|zero-value|value) vs (nil|zero-value|value) \(nil=`)
+
 func TestVerif_C24(t *testing.T) {
 	rec := kit.Open("C24")
 	if kit.ChildMode() != "" {
@@ -696,7 +698,13 @@ func c24ValueRoundTrip(rec *kit.Rec, f *filler, which int) {
 		}
 		if dp, w := d.diff(reflect.ValueOf(c.orig), reflect.ValueOf(back), strings.TrimSuffix(c.name, "(stream)")); dp != "" {
 			bj, _ := json.Marshal(back)
-			rec.Violation("roundtrip"+path+"/"+dp, fmt.Sprintf("%s changed by the round trip at %s: %s", c.name, dp, w),
+			// nil-ness differences carry their direction: "nil became a value" and "a
+			// (zero) value became nil" are different defects at the same path
+			dir := ""
+			if m := c24NilDir.FindStringSubmatch(w); m != nil {
+				dir = "/" + m[1] + "-becomes-" + m[2]
+			}
+			rec.Violation("roundtrip"+path+"/"+dp+dir, fmt.Sprintf("%s changed by the round trip at %s: %s", c.name, dp, w),
 				map[string]any{"type": c.name, "value": witness(), "after": clip(string(bj), 6000), "difference": w})
 		}
 	}
